@@ -137,11 +137,14 @@ func i64resp(v int64) []byte {
 	return b
 }
 
-func mkReq(op uint16, path string) Req       { return Req{Op: op, Path: path} }
-func rdReq(off uint64, limit uint32) Req     { return Req{Op: opReadFile, Off: off, Limit: limit} }
-func rdcReq(off uint64, limit uint32) Req    { return Req{Op: opReadFileCritical, Off: off, Limit: limit} }
-func cdReq(start, count uint32) Req          { return Req{Op: opReadCD2048, Start: start, Count: count} }
-func wrReq(payload []byte) Req               { return Req{Op: opWriteFile, Payload: payload} }
-func rawReq(b []byte) Req                    { return Req{Raw: b} }
-func noargReq(op uint16) Req                 { return Req{Op: op} }
-func truncReq(r Req, n int) Req              { e := r.Encode(); return Req{Op: r.Op, Raw: append([]byte{}, e[:n]...), Trunc: n} }
+func mkReq(op uint16, path string) Req    { return Req{Op: op, Path: path} }
+func rdReq(off uint64, limit uint32) Req  { return Req{Op: opReadFile, Off: off, Limit: limit} }
+func rdcReq(off uint64, limit uint32) Req { return Req{Op: opReadFileCritical, Off: off, Limit: limit} }
+func cdReq(start, count uint32) Req       { return Req{Op: opReadCD2048, Start: start, Count: count} }
+func wrReq(payload []byte) Req            { return Req{Op: opWriteFile, Payload: payload} }
+func rawReq(b []byte) Req                 { return Req{Raw: b} }
+func noargReq(op uint16) Req              { return Req{Op: op} }
+func truncReq(r Req, n int) Req {
+	e := r.Encode()
+	return Req{Op: r.Op, Raw: append([]byte{}, e[:n]...), Trunc: n}
+}
